@@ -38,6 +38,21 @@ type extSpec struct {
 	// ViaGlobal: the helper reaches the project it loads only through a module global that
 	// was computed while lib.dawn loaded, not by calling the loaded helper itself.
 	ViaGlobal bool `json:"via_global,omitempty"`
+	// AltDep (k > 0): the odd versions of this project require and load project k-1 instead of
+	// Loads, under the same alias ("dep"): one name, another project behind it.
+	AltDep int `json:"alt_dep,omitempty"`
+}
+
+// extDep: the project that version v of project i requires and loads (-1: none).
+func (p *projSpec) extDep(i, v int) int {
+	e := &p.Exts[i]
+	if e.Loads >= 0 && e.AltDep > 0 && e.AltDep-1 < len(p.Exts) && v%2 == 1 {
+		return e.AltDep - 1
+	}
+	if e.Loads >= len(p.Exts) {
+		return -1
+	}
+	return e.Loads
 }
 
 func extPath(i int) string  { return fmt.Sprintf("github.com/verif/ext%d", i) }
@@ -77,7 +92,7 @@ func (p *projSpec) extSelected() []int {
 		if n.v > sel[n.i] {
 			sel[n.i] = n.v
 		}
-		if j := p.Exts[n.i].Loads; j >= 0 && j < len(p.Exts) {
+		if j := p.extDep(n.i, n.v); j >= 0 {
 			push(node{j, extDepVersion(n.i, n.v, j)})
 		}
 	}
@@ -104,13 +119,13 @@ func (p *projSpec) extFiles(i, v int) map[string]string {
 	out := map[string]string{}
 	var toml strings.Builder
 	fmt.Fprintf(&toml, "name = '%s'\n", extAlias(i))
-	if j := e.Loads; j >= 0 && j < len(p.Exts) {
+	if j := p.extDep(i, v); j >= 0 {
 		fmt.Fprintf(&toml, "\n[requirements]\ndep = {path = '%s', version = '%s'}\n", extPath(j), extVersions[extDepVersion(i, v, j)])
 	}
 	out["dawn.toml"] = toml.String()
 	var sb strings.Builder
 	fmt.Fprintf(&sb, "# lib.dawn of %s\n", extPath(i))
-	if j := e.Loads; j >= 0 && j < len(p.Exts) {
+	if j := p.extDep(i, v); j >= 0 {
 		fmt.Fprintf(&sb, "load(\"dep//:lib.dawn\", \"ext%d_f\")\n", j)
 	}
 	if e.Util {
@@ -125,7 +140,7 @@ func (p *projSpec) extFiles(i, v int) map[string]string {
 	}
 	fmt.Fprintf(&sb, "EXT%d_K = %s\n", i, e.valAt(v).render())
 	parts := []string{e.litAt(v).render(), fmt.Sprintf("EXT%d_K", i)}
-	if j := e.Loads; j >= 0 && j < len(p.Exts) {
+	if j := p.extDep(i, v); j >= 0 {
 		// a global of this module computed while it loads from what the other project
 		// provides: its value depends on the version the build list selects for that project,
 		// not on this module's text
@@ -179,17 +194,21 @@ func (p *projSpec) extItems(i int, fn bool, out map[string]string, seen map[int]
 		return
 	}
 	out[fmt.Sprintf("extlit|%d", i)] = e.litAt(v).render()
-	out[fmt.Sprintf("extshape|%d", i)] = fmt.Sprintf("%d/%v/%v", e.Loads, e.Util, e.ViaGlobal)
-	if e.Loads >= 0 {
-		p.extItems(e.Loads, true, out, seen)
+	out[fmt.Sprintf("extshape|%d", i)] = fmt.Sprintf("%d/%v/%v", p.extDep(i, v), e.Util, e.ViaGlobal)
+	if j := p.extDep(i, v); j >= 0 {
+		p.extItems(j, true, out, seen)
 	}
 }
 
 // extGraph adds the required projects' modules to the model's load graph.
 func (p *projSpec) extGraph(g map[string][]string) {
+	sel := p.extSelected()
 	for i, e := range p.Exts {
 		n := extLabel(i)
-		if j := e.Loads; j >= 0 && j < len(p.Exts) {
+		if sel[i] < 0 {
+			continue
+		}
+		if j := p.extDep(i, sel[i]); j >= 0 {
 			g[n] = append(g[n], extLabel(j))
 		}
 		if e.Util {
